@@ -46,6 +46,9 @@ def gitignores(tier: str) -> list[tuple[str, list[str]]]:
         for neg in ["a.md", "ab.md", "a/a.md", "/a.md"]:
             out.append(("negation", [base, "!" + neg]))
     out += [("negation-dir", ["a/", "!a/a.md"]), ("negation-first", ["!a.md", "*.md"])]
+    # last-match-wins with repeated rules, comments and blank lines
+    out += [("re-ignore", ["*.md", "!a.md", "*.md"]), ("re-ignore", ["a*", "!ab.md", "a*"]), ("re-include", ["!a.md", "*.md", "!a.md"]),
+            ("re-ignore-dir", ["x/", "!x/", "x/"]), ("comments", ["# *.md", "", "a.md"]), ("comments", ["*.md", "#!a.md"]), ("duplicate", ["a.md", "a.md"])]
     seen, res = set(), []
     for form, lines in out:
         k = tuple(lines)
@@ -139,10 +142,28 @@ def _decide(x: Any, langs: list[tuple[Any, bool]]) -> Any:
     return r
 
 
+def _impl_langs(lines: list[str]) -> list[tuple[Any, bool]]:
+    """the patterns flowmark itself loads from a .gitignore with these lines (real _read_ignore_file: comment, blank-line
+    and any other line handling included), translated from the regexes of the PathSpec it returns"""
+    from engines import re2smt
+    from flowmark.file_resolver.gitignore import _read_ignore_file
+
+    d = Path(tempfile.mkdtemp(prefix="c18g_"))
+    try:
+        (d / ".gitignore").write_text("\n".join(lines) + "\n")
+        spec = _read_ignore_file(d / ".gitignore")
+    finally:
+        shutil.rmtree(d, ignore_errors=True)
+    if spec is None:
+        return []
+    return [(re2smt.match_lang_tail(p.regex), bool(p.include)) for p in spec.patterns if getattr(p, "regex", None) is not None]
+
+
 def formulas(lines: list[str], origin: str, templates: list[tuple[str, str]], d1: Any, d2: Any, f: Any) -> tuple[Any, Any]:
-    langs = _line_langs(lines)
+    langs = _line_langs([ln for ln in lines if ln.strip() and not ln.startswith("#")])   # git's reading of the file
+    impl_langs = _impl_langs(lines)                                                        # flowmark's reading of the file
     S = z3.StringVal
-    impl = z3.Or([_decide(_template_term(arg, d1, d2, f), langs) for o, arg in templates if o == origin] + [z3.BoolVal(False)])
+    impl = z3.Or([_decide(_template_term(arg, d1, d2, f), impl_langs) for o, arg in templates if o == origin] + [z3.BoolVal(False)])
     if origin == "":
         dirs = [z3.Concat(d1, S("/")), z3.Concat(d1, S("/"), d2, S("/"))]
         rel = z3.Concat(d1, S("/"), d2, S("/"), f)
